@@ -224,6 +224,18 @@ def pack_module(units):
     return {"prog.incn": entry, "semlib.incn": lib}, py
 
 
+_TOP_DECL = re.compile(r"^(def|async def|model|class|enum|trait|type|const) (\w+)", re.M)
+
+
+def module_lift_general(u):
+    """Any unit: all its declarations move to semlib.incn (each top-level declaration made `pub`), the entry file imports
+    every declared name and keeps only the driver. The reference is the unit's ordinary single-file reference."""
+    lib = re.sub(r"^(def|async def|model|class|enum|trait|type|const) ", r"pub \1 ", u.decls, flags=re.M)
+    names = [m.group(2) for m in _TOP_DECL.finditer(u.decls)]
+    entry = "from semlib import " + ", ".join(names) + "\n\n\ndef main() -> None:\n" + ind(f'println("@@{u.name}")\n' + u.driver) + "\n"
+    return {"prog.incn": entry, "semlib.incn": lib + "\n"}
+
+
 def run_python(py):
     p = subprocess.run([sys.executable, "-c", py], capture_output=True, text=True, timeout=120)
     return p.returncode, p.stdout, p.stderr
